@@ -1878,3 +1878,22 @@ M("c06-producer-sees-the-flag-after-put-and-sleeps", "C06", "R2.handshake-produc
   "            if self._checkpointing_failed.is_set():\n                pass\n\n            # Wait for completion")
 M("c09-fail-fast-reported-without-a-failure", "C09", "R3.fail-fast-means-any-failure", "concurrency/models.py",
   "        if completion_config is None:\n            if failure_count > 0:", "        if completion_config is None:\n            if failure_count >= 0:")
+M("c17-resumed-invocation-starts-new", "C17", "R3.replay-decision-right-way-round", "execution.py",
+  "            replay_status=ReplayStatus.REPLAY\n            if len(invocation_input.initial_execution_state.operations) > 1",
+  "            replay_status=ReplayStatus.NEW\n            if len(invocation_input.initial_execution_state.operations) > 1")
+M("c17-benign-replay-decision-through-a-local", "C17", "", "execution.py",
+  "            replay_status=ReplayStatus.REPLAY\n            if len(invocation_input.initial_execution_state.operations) > 1\n            or invocation_input.initial_execution_state.next_marker\n            else ReplayStatus.NEW,",
+  "            replay_status=ReplayStatus.NEW\n            if len(invocation_input.initial_execution_state.operations) <= 1\n            and not invocation_input.initial_execution_state.next_marker\n            else ReplayStatus.REPLAY,",
+  expect="silent")
+M("c05-stop-drain-loop-inverted", "C05", "R6.stop-releases-queued-waiters", "state.py", "                while not pending.empty():", "                while pending.empty():")
+M("c05-stop-release-guard-inverted", "C05", "R6.stop-releases-queued-waiters", "state.py",
+  "                        if item.completion_event:\n                            item.completion_event.set(stopped_error)", "                        if not item.completion_event:\n                            item.completion_event.set(stopped_error)")
+
+
+def _end_inside_start(src):
+    old = ('        if (ms := data_copy.get("EndTimestamp")) is not None:\n            data_copy["EndTimestamp"] = TimestampConverter.from_unix_millis(ms)\n')
+    assert src.count(old) == 1
+    return src.replace(old, '            if (ms := data_copy.get("EndTimestamp")) is not None:\n                data_copy["EndTimestamp"] = TimestampConverter.from_unix_millis(ms)\n')
+
+
+M2("c20-end-timestamp-decoded-only-with-a-start", "C20", "R4.conversion-depends-on-its-own-presence-only", [{"file": "lambda_service.py", "fn": _end_inside_start}], desc="r8_C20")
